@@ -59,7 +59,7 @@ func (e *engine) Info() core.Info {
 			"Filter's own map iteration order is not behind a seam (the hooks are add-only); for correct code its result is order-independent; it is evaluated 4 times per run (64 times in a replay)",
 			"under an injected fault the only accepted outcomes are an error (whatever accompanies it) or (data equal to the model, nil)",
 		},
-		QuickRuns: 400000, ThoroughRuns: 12000000, QuickWallS: 75, ThoroughWallS: 1500,
+		QuickRuns: 400000, ThoroughRuns: 12000000, TokenScheduled: true, QuickWallS: 75, ThoroughWallS: 1500,
 	}
 }
 
